@@ -1,0 +1,10 @@
+//go:build verif
+
+package arraystack
+
+import "github.com/emirpasic/gods/v2/lists/arraylist"
+
+// VerifInner returns the backing array list.
+func (stack *Stack[T]) VerifInner() *arraylist.List[T] {
+	return stack.list
+}
